@@ -315,3 +315,553 @@ Proof.
     + intros [-> E]. split; [reflexivity|]. apply (eq_struct_enum vs H); assumption.
     + intros [-> E]. split; [reflexivity|]. apply (eq_struct_enum vs H tb pa pb); assumption.
 Qed.
+
+(* ------------------------------------------------------------------------------------------------ *)
+(* structural equality is an equivalence; so == is reflexive and symmetric, ~= is its complement     *)
+
+Lemma seq_refl : forall t a, vty t a -> seq_t t a a.
+Proof.
+  induction t using ty_ind'; intros a Ha.
+  - reflexivity.
+  - reflexivity.
+  - destruct Ha as [z ->]. exists (z # 1), (z # 1). repeat split; reflexivity.
+  - destruct Ha as [q [-> _]]. exists q, q. repeat split; reflexivity.
+  - reflexivity.
+  - reflexivity.
+  - destruct a; try contradiction. simpl in *. revert vs Ha.
+    induction H as [|t ts Ht _ IH]; intros [|x xs]; simpl; try tauto.
+    intros [Hx Hxs]. split; [apply Ht; exact Hx | apply IH; exact Hxs].
+  - destruct a; try contradiction. simpl in *.
+    induction vs as [|x xs IH]; simpl in *; [exact I|].
+    destruct Ha as [Hx Hxs]. split; [apply IHt; exact Hx | apply IH; exact Hxs].
+  - destruct a as [ | |?|?|?|?|?|fa|?|?|?|?]; try contradiction. destruct Ha as [_ [_ Fa]]. simpl.
+    induction H as [|[n t] fs Ht _ IH]; simpl in *; [exact I|].
+    destruct Fa as [[x [Ex Tx]] Fa]. split; [rewrite Ex; apply Ht; exact Tx | apply IH; exact Fa].
+  - destruct a as [ | |?|?|?|?|?|?|ta pa|?|?|?]; try contradiction. simpl in *. split; [reflexivity|].
+    induction H as [|[n t] vars Ht _ IH]; simpl in *; [exact Ha|].
+    destruct (String.eqb ta n); [apply Ht; exact Ha | apply IH; exact Ha].
+Qed.
+
+Lemma seq_sym : forall t a b, seq_t t a b -> seq_t t b a.
+Proof.
+  induction t using ty_ind'; intros a b Hab; try (simpl in *; congruence).
+  - destruct Hab as [p [q [-> [-> E]]]]. exists q, p. repeat split; [reflexivity.. | symmetry; exact E].
+  - destruct Hab as [p [q [-> [-> E]]]]. exists q, p. repeat split; [reflexivity.. | symmetry; exact E].
+  - destruct a; try contradiction. destruct b; try contradiction. simpl in *. revert vs vs0 Hab.
+    induction H as [|t ts Ht _ IH]; intros [|x xs] [|y ys]; simpl; try tauto.
+    intros [Hx Hxs]. split; [apply Ht; exact Hx | apply IH; exact Hxs].
+  - destruct a; try contradiction. destruct b; try contradiction. simpl in *. revert vs0 Hab.
+    induction vs as [|x xs IH]; intros [|y ys]; simpl; try tauto.
+    intros [Hx Hxs]. split; [apply IHt; exact Hx | apply IH; exact Hxs].
+  - destruct a as [ | |?|?|?|?|?|fa|?|?|?|?]; try contradiction.
+    destruct b as [ | |?|?|?|?|?|fb|?|?|?|?]; try contradiction. simpl in *.
+    induction H as [|[n t] fs Ht _ IH]; simpl in *; [exact I|].
+    destruct Hab as [Hx Hab]. split; [|apply IH; exact Hab].
+    destruct (tbl_get n fa), (tbl_get n fb); try contradiction. apply Ht. exact Hx.
+  - destruct a as [ | |?|?|?|?|?|?|ta pa|?|?|?]; try contradiction.
+    destruct b as [ | |?|?|?|?|?|?|tb pb|?|?|?]; try contradiction. simpl in *.
+    destruct Hab as [-> Hab]. split; [reflexivity|].
+    induction H as [|[n t] vars Ht _ IH]; simpl in *; [exact Hab|].
+    destruct (String.eqb tb n); [apply Ht; exact Hab | apply IH; exact Hab].
+Qed.
+
+Lemma seq_trans : forall t a b c, seq_t t a b -> seq_t t b c -> seq_t t a c.
+Proof.
+  induction t using ty_ind'; intros a b c Hab Hbc; try (simpl in *; congruence).
+  - destruct Hab as [p [q [-> [-> E]]]]. destruct Hbc as [q' [r [E1 [-> E2]]]]. inversion E1; subst q'.
+    exists p, r. repeat split; [reflexivity.. | rewrite E; exact E2].
+  - destruct Hab as [p [q [-> [-> E]]]]. destruct Hbc as [q' [r [E1 [-> E2]]]]. inversion E1; subst q'.
+    exists p, r. repeat split; [reflexivity.. | rewrite E; exact E2].
+  - destruct a; try contradiction. destruct b; try contradiction. destruct c; try contradiction.
+    simpl in *. revert vs vs0 vs1 Hab Hbc.
+    induction H as [|t ts Ht _ IH]; intros [|x xs] [|y ys] [|z zs]; simpl; try tauto.
+    intros [Hx Hxs] [Hy Hys]. split; [eapply Ht; eassumption | eapply IH; eassumption].
+  - destruct a; try contradiction. destruct b; try contradiction. destruct c; try contradiction.
+    simpl in *. revert vs0 vs1 Hab Hbc.
+    induction vs as [|x xs IH]; intros [|y ys] [|z zs]; simpl; try tauto.
+    intros [Hx Hxs] [Hy Hys]. split; [eapply IHt; eassumption | eapply IH; eassumption].
+  - destruct a as [ | |?|?|?|?|?|fa|?|?|?|?]; try contradiction.
+    destruct b as [ | |?|?|?|?|?|fb|?|?|?|?]; try contradiction.
+    destruct c as [ | |?|?|?|?|?|fc|?|?|?|?]; try contradiction. simpl in *.
+    induction H as [|[n t] fs Ht _ IH]; simpl in *; [exact I|].
+    destruct Hab as [Hx Hab]. destruct Hbc as [Hy Hbc]. split; [|apply IH; assumption].
+    destruct (tbl_get n fa), (tbl_get n fb), (tbl_get n fc); try contradiction. eapply Ht; eassumption.
+  - destruct a as [ | |?|?|?|?|?|?|ta pa|?|?|?]; try contradiction.
+    destruct b as [ | |?|?|?|?|?|?|tb pb|?|?|?]; try contradiction.
+    destruct c as [ | |?|?|?|?|?|?|tc pc|?|?|?]; try contradiction. simpl in *.
+    destruct Hab as [-> Hab]. destruct Hbc as [-> Hbc]. split; [reflexivity|].
+    induction H as [|[n t] vars Ht _ IH]; simpl in *; [exact Hab|].
+    destruct (String.eqb tc n); [eapply Ht; eassumption | apply IH; assumption].
+Qed.
+
+Lemma bool_eq_iff : forall x y : bool, (x = true <-> y = true) -> x = y.
+Proof.
+  intros [|] [|] [H1 H2]; try reflexivity; [symmetry; apply H1; reflexivity | apply H2; reflexivity].
+Qed.
+
+Theorem eq_refl_rt : forall t a, vty t a -> rt_eq a a = true.
+Proof. intros t a Ha. apply (eq_struct t a a Ha Ha). apply seq_refl. exact Ha. Qed.
+
+Theorem eq_sym_rt : forall t a b, vty t a -> vty t b -> rt_eq a b = rt_eq b a.
+Proof.
+  intros t a b Ha Hb. apply bool_eq_iff.
+  rewrite (eq_struct t a b Ha Hb), (eq_struct t b a Hb Ha). split; apply seq_sym.
+Qed.
+
+Theorem eq_trans_rt : forall t a b c, vty t a -> vty t b -> vty t c ->
+  rt_eq a b = true -> rt_eq b c = true -> rt_eq a c = true.
+Proof.
+  intros t a b c Ha Hb Hc. rewrite (eq_struct t a b Ha Hb), (eq_struct t b c Hb Hc), (eq_struct t a c Ha Hc).
+  apply seq_trans.
+Qed.
+
+(* `!=` is emitted as `~=`, which Lua defines as the negation of `==` *)
+Theorem neq_compl : forall a b, rt_neq a b = negb (rt_eq a b).
+Proof. reflexivity. Qed.
+
+Theorem neq_struct : forall t a b, vty t a -> vty t b -> (rt_neq a b = true <-> ~ seq_t t a b).
+Proof.
+  intros t a b Ha Hb. unfold rt_neq. rewrite negb_true_iff, <- (eq_struct t a b Ha Hb).
+  destruct (rt_eq a b); split; congruence.
+Qed.
+
+(* ------------------------------------------------------------------------------------------------ *)
+(* the specification order lt_t is a strict total order compatible with seq_t (spec level only)      *)
+
+Record ord_props (t : ty) : Prop := {
+  o_irr : forall a b, lt_t t a b -> seq_t t a b -> False;
+  o_trans : forall a b c, lt_t t a b -> lt_t t b c -> lt_t t a c;
+  o_seq_l : forall a b c, seq_t t a b -> lt_t t b c -> lt_t t a c;
+  o_seq_r : forall a b c, lt_t t a b -> seq_t t b c -> lt_t t a c;
+  o_tot : forall a b, vty t a -> vty t b -> lt_t t a b \/ seq_t t a b \/ lt_t t b a
+}.
+
+Lemma vty_num : forall t v, t = TInt \/ t = TFloat -> vty t v -> exists q, v = VNum q /\ q_wf q.
+Proof. intros t v [-> | ->] H; [apply vty_int_num; exact H | exact H]. Qed.
+
+Lemma ord_props_num : forall t, t = TInt \/ t = TFloat -> ord_props t.
+Proof.
+  intros t Ht.
+  assert (L : forall a b, lt_t t a b = exists p q, a = VNum p /\ b = VNum q /\ p < q)
+    by (destruct Ht as [-> | ->]; reflexivity).
+  assert (S : forall a b, seq_t t a b = exists p q, a = VNum p /\ b = VNum q /\ p == q)
+    by (destruct Ht as [-> | ->]; reflexivity).
+  constructor; intros *; rewrite ?L, ?S.
+  - intros [p [q [-> [-> H1]]]] [p' [q' [E1 [E2 H2]]]]. inversion E1; inversion E2; subst.
+    rewrite H2 in H1. exact (Qlt_irrefl _ H1).
+  - intros [p [q [-> [-> H1]]]] [q' [r [E1 [-> H2]]]]. inversion E1; subst.
+    exists p, r. repeat split. eapply Qlt_trans; eassumption.
+  - intros [p [q [-> [-> H1]]]] [q' [r [E1 [-> H2]]]]. inversion E1; subst.
+    exists p, r. repeat split. rewrite H1. exact H2.
+  - intros [p [q [-> [-> H1]]]] [q' [r [E1 [-> H2]]]]. inversion E1; subst.
+    exists p, r. repeat split. rewrite <- H2. exact H1.
+  - intros Ha Hb. destruct (vty_num t a Ht Ha) as [p [-> _]]. destruct (vty_num t b Ht Hb) as [q [-> _]].
+    destruct (Q_dec p q) as [[H|H]|H].
+    + left. exists p, q. auto.
+    + right. right. exists q, p. auto.
+    + right. left. exists p, q. auto.
+Qed.
+
+Lemma ord_props_str : ord_props TStr.
+Proof.
+  constructor; simpl.
+  - intros a b [s [u [-> [-> H]]]] E. inversion E; subst. exact (str_lt_irrefl _ H).
+  - intros a b c [s [u [-> [-> H1]]]] [u' [w [E [-> H2]]]]. inversion E; subst.
+    exists s, w. repeat split. eapply str_lt_trans; eassumption.
+  - intros a b c -> H. exact H.
+  - intros a b c H <-. exact H.
+  - intros a b [s ->] [u ->]. destruct (str_lt_total s u) as [H|[H|H]].
+    + left. exists s, u. auto.
+    + right. left. congruence.
+    + right. right. exists u, s. auto.
+Qed.
+
+Lemma ord_props_tuple : forall ts, Forall ord_props ts -> ord_props (TTuple ts).
+Proof.
+  intros ts H. constructor.
+  - intros a b. destruct a; try contradiction. destruct b; try contradiction. simpl. revert vs vs0.
+    induction H as [|t ts Ht _ IH]; intros [|x xs] [|y ys]; simpl; try tauto.
+    intros [L | [E L]] [E' S]; [exact (o_irr _ Ht _ _ L E') | exact (IH _ _ L S)].
+  - intros a b c. destruct a; try contradiction. destruct b; try contradiction. destruct c; try contradiction.
+    simpl. revert vs vs0 vs1.
+    induction H as [|t ts Ht _ IH]; intros [|x xs] [|y ys] [|z zs]; simpl; try tauto.
+    intros [L1 | [E1 L1]] [L2 | [E2 L2]].
+    + left. exact (o_trans _ Ht _ _ _ L1 L2).
+    + left. exact (o_seq_r _ Ht _ _ _ L1 E2).
+    + left. exact (o_seq_l _ Ht _ _ _ E1 L2).
+    + right. split; [exact (seq_trans _ _ _ _ E1 E2) | exact (IH _ _ _ L1 L2)].
+  - intros a b c. destruct a; try contradiction. destruct b; try contradiction. destruct c; try contradiction.
+    simpl. revert vs vs0 vs1.
+    induction H as [|t ts Ht _ IH]; intros [|x xs] [|y ys] [|z zs]; simpl; try tauto.
+    intros [E1 S1] [L2 | [E2 L2]].
+    + left. exact (o_seq_l _ Ht _ _ _ E1 L2).
+    + right. split; [exact (seq_trans _ _ _ _ E1 E2) | exact (IH _ _ _ S1 L2)].
+  - intros a b c. destruct a; try contradiction. destruct b; try contradiction. destruct c; try contradiction.
+    simpl. revert vs vs0 vs1.
+    induction H as [|t ts Ht _ IH]; intros [|x xs] [|y ys] [|z zs]; simpl; try tauto.
+    intros [L1 | [E1 L1]] [E2 S2].
+    + left. exact (o_seq_r _ Ht _ _ _ L1 E2).
+    + right. split; [exact (seq_trans _ _ _ _ E1 E2) | exact (IH _ _ _ L1 S2)].
+  - intros a b. destruct a; try contradiction. destruct b; try contradiction. simpl. revert vs vs0.
+    induction H as [|t ts Ht _ IH]; intros [|x xs] [|y ys]; simpl; try tauto.
+    intros [Hx Hxs] [Hy Hys]. destruct (o_tot _ Ht x y Hx Hy) as [L|[E|L]].
+    + left. left. exact L.
+    + destruct (IH xs ys Hxs Hys) as [L|[E'|L]].
+      * left. right. auto.
+      * right. left. auto.
+      * right. right. right. split; [apply seq_sym; exact E | exact L].
+    + right. right. left. exact L.
+Qed.
+
+Theorem lt_strict_total_order : forall t, ord_ty t = true -> ord_props t.
+Proof.
+  induction t using ty_ind'; simpl; try discriminate; intros Ho.
+  - apply ord_props_num. auto.
+  - apply ord_props_num. auto.
+  - apply ord_props_str.
+  - apply ord_props_tuple. rewrite forallb_forall in Ho. rewrite Forall_forall in *. auto.
+Qed.
+
+(* ------------------------------------------------------------------------------------------------ *)
+(* < and <= as preamble.lua computes them are that order                                             *)
+
+Definition lt_struct_at (t : ty) : Prop :=
+  forall a b, vty t a -> vty t b -> exists c, rt_lt a b = Ok c /\ (c = true <-> lt_t t a b).
+
+Lemma lex_go_spec : forall dflt ts, Forall ord_props ts -> Forall lt_struct_at ts ->
+  forall xs ys, all2 vty ts xs -> all2 vty ts ys ->
+  exists c, lex_go rt_eq rt_lt dflt xs ys = Ok c /\
+            (c = true <-> lex3 lt_t seq_t ts xs ys \/ (dflt = true /\ all3 seq_t ts xs ys)).
+Proof.
+  intros dflt ts HO HL. induction HL as [|t ts Ht HL IH]; intros [|x xs] [|y ys]; simpl; try tauto.
+  - intros _ _. exists dflt. split; [reflexivity | tauto].
+  - inversion HO as [|? ? Ot Ots]; subst. intros [Hx Hxs] [Hy Hys].
+    pose proof (eq_struct t x y Hx Hy) as E. destruct (rt_eq x y).
+    + destruct (IH Ots xs ys Hxs Hys) as [c [R C]]. exists c. split; [exact R|]. rewrite C.
+      assert (S : seq_t t x y) by (apply E; reflexivity).
+      pose proof (o_irr _ Ot x y). tauto.
+    + destruct (Ht x y Hx Hy) as [c [R C]]. exists c. split; [exact R|]. rewrite C.
+      assert (S : ~ seq_t t x y) by (intros S; apply E in S; discriminate). tauto.
+Qed.
+
+Theorem lt_struct : forall t, ord_ty t = true -> lt_struct_at t.
+Proof.
+  induction t using ty_ind'; simpl; try discriminate; intros Ho a b Ha Hb.
+  - destruct Ha as [x ->], Hb as [y ->]. exists (q_ltb (x # 1) (y # 1)). split; [reflexivity|].
+    rewrite q_ltb_Qlt. split; [intros L; exists (x # 1), (y # 1); auto | intros [p [q [E1 [E2 L]]]]; inversion E1; inversion E2; subst; exact L].
+  - destruct Ha as [x [-> _]], Hb as [y [-> _]]. exists (q_ltb x y). split; [reflexivity|].
+    rewrite q_ltb_Qlt. split; [intros L; exists x, y; auto | intros [p [q [E1 [E2 L]]]]; inversion E1; inversion E2; subst; exact L].
+  - destruct Ha as [x ->], Hb as [y ->]. exists (str_ltb x y). split; [reflexivity|].
+    rewrite str_ltb_lt. split; [intros L; exists x, y; auto | intros [p [q [E1 [E2 L]]]]; inversion E1; inversion E2; subst; exact L].
+  - destruct a; try contradiction. destruct b; try contradiction.
+    rewrite forallb_forall in Ho.
+    assert (HO : Forall ord_props ts) by (apply Forall_forall; intros t Hin; apply lt_strict_total_order; auto).
+    assert (HL : Forall lt_struct_at ts) by (rewrite Forall_forall in *; auto).
+    destruct (lex_go_spec false ts HO HL vs vs0 Ha Hb) as [c [R C]].
+    exists c. split; [exact R|]. rewrite C. simpl. intuition discriminate.
+Qed.
+
+Lemma str_leb_spec : forall s u, str_leb s u = true <-> str_lt s u \/ s = u.
+Proof.
+  intros s u. unfold str_leb. rewrite negb_true_iff.
+  destruct (str_ltb u s) eqn:E.
+  - apply str_ltb_lt in E. split; [discriminate|]. intros [L | ->].
+    + exfalso. exact (str_lt_irrefl _ (str_lt_trans _ _ _ L E)).
+    + exfalso. exact (str_lt_irrefl _ E).
+  - split; [|reflexivity]. intros _. destruct (str_lt_total s u) as [L|[L|L]]; auto.
+    apply str_ltb_lt in L. congruence.
+Qed.
+
+Theorem le_struct : forall t, ord_ty t = true -> forall a b, vty t a -> vty t b ->
+  exists c, rt_le a b = Ok c /\ (c = true <-> lt_t t a b \/ seq_t t a b).
+Proof.
+  intros t Ho a b Ha Hb. destruct t; simpl in Ho; try discriminate.
+  - destruct Ha as [x ->], Hb as [y ->]. exists (q_leb (x # 1) (y # 1)). split; [reflexivity|].
+    rewrite q_leb_Qle, Qle_lteq. simpl.
+    split; [intros [L|L]; [left|right]; exists (x # 1), (y # 1); auto
+           | intros [[p [q [E1 [E2 L]]]] | [p [q [E1 [E2 L]]]]]; inversion E1; inversion E2; subst; auto].
+  - destruct Ha as [x [-> _]], Hb as [y [-> _]]. exists (q_leb x y). split; [reflexivity|].
+    rewrite q_leb_Qle, Qle_lteq. simpl.
+    split; [intros [L|L]; [left|right]; exists x, y; auto
+           | intros [[p [q [E1 [E2 L]]]] | [p [q [E1 [E2 L]]]]]; inversion E1; inversion E2; subst; auto].
+  - destruct Ha as [x ->], Hb as [y ->]. exists (str_leb x y). split; [reflexivity|].
+    rewrite str_leb_spec. simpl.
+    split; [intros [L| ->]; [left; exists x, y; auto | right; reflexivity]
+           | intros [[p [q [E1 [E2 L]]]] | E]; [inversion E1; inversion E2; subst; auto | inversion E; auto]].
+  - destruct a; try contradiction. destruct b; try contradiction.
+    rewrite forallb_forall in Ho.
+    assert (HO : Forall ord_props ts) by (apply Forall_forall; intros t Hin; apply lt_strict_total_order; auto).
+    assert (HL : Forall lt_struct_at ts) by (apply Forall_forall; intros t Hin; apply lt_struct; auto).
+    destruct (lex_go_spec true ts HO HL vs vs0 Ha Hb) as [c [R C]].
+    exists c. split; [exact R|]. rewrite C. simpl. intuition.
+Qed.
+
+(* the user-facing consequences *)
+
+Theorem lt_defined : forall t a b, ord_ty t = true -> vty t a -> vty t b ->
+  rt_lt a b = Ok true \/ rt_lt a b = Ok false.
+Proof. intros t a b Ho Ha Hb. destruct (lt_struct t Ho a b Ha Hb) as [[|] [R _]]; auto. Qed.
+
+Theorem le_iff : forall t a b, ord_ty t = true -> vty t a -> vty t b ->
+  (rt_le a b = Ok true <-> rt_lt a b = Ok true \/ rt_eq a b = true).
+Proof.
+  intros t a b Ho Ha Hb.
+  destruct (le_struct t Ho a b Ha Hb) as [c [R C]]. destruct (lt_struct t Ho a b Ha Hb) as [d [R' D]].
+  rewrite R, R', (eq_struct t a b Ha Hb). split.
+  - intros X. inversion X; subst c. destruct C as [C _]. destruct (C eq_refl) as [L|S]; [left|right; exact S].
+    f_equal. apply D. exact L.
+  - intros [X|S]; f_equal; apply C; [left; apply D; inversion X; reflexivity | right; exact S].
+Qed.
+
+Theorem gt_flip : forall a b, rt_gt a b = rt_lt b a.
+Proof. reflexivity. Qed.
+Theorem ge_flip : forall a b, rt_ge a b = rt_le b a.
+Proof. reflexivity. Qed.
+
+Theorem lt_irrefl_rt : forall t a, ord_ty t = true -> vty t a -> rt_lt a a = Ok false.
+Proof.
+  intros t a Ho Ha. destruct (lt_struct t Ho a a Ha Ha) as [c [R C]]. rewrite R. f_equal.
+  destruct c; [|reflexivity]. exfalso.
+  exact (o_irr _ (lt_strict_total_order t Ho) a a (proj1 C eq_refl) (seq_refl t a Ha)).
+Qed.
+
+Theorem lt_trans_rt : forall t a b c, ord_ty t = true -> vty t a -> vty t b -> vty t c ->
+  rt_lt a b = Ok true -> rt_lt b c = Ok true -> rt_lt a c = Ok true.
+Proof.
+  intros t a b c Ho Ha Hb Hc.
+  destruct (lt_struct t Ho a b Ha Hb) as [c1 [-> C1]]. destruct (lt_struct t Ho b c Hb Hc) as [c2 [-> C2]].
+  destruct (lt_struct t Ho a c Ha Hc) as [c3 [-> C3]]. intros X Y. inversion X; inversion Y; subst.
+  f_equal. apply C3. eapply (o_trans _ (lt_strict_total_order t Ho)); [apply C1 | apply C2]; reflexivity.
+Qed.
+
+(* exactly one of a < b, a == b, b < a *)
+Theorem lt_trichotomy_rt : forall t a b, ord_ty t = true -> vty t a -> vty t b ->
+  (rt_lt a b = Ok true /\ rt_eq a b = false /\ rt_lt b a = Ok false) \/
+  (rt_lt a b = Ok false /\ rt_eq a b = true /\ rt_lt b a = Ok false) \/
+  (rt_lt a b = Ok false /\ rt_eq a b = false /\ rt_lt b a = Ok true).
+Proof.
+  intros t a b Ho Ha Hb. pose proof (lt_strict_total_order t Ho) as O.
+  destruct (lt_struct t Ho a b Ha Hb) as [c1 [-> C1]]. destruct (lt_struct t Ho b a Hb Ha) as [c2 [-> C2]].
+  pose proof (eq_struct t a b Ha Hb) as E.
+  assert (N1 : lt_t t a b -> lt_t t b a -> False).
+  { intros L1 L2. exact (o_irr _ O a a (o_trans _ O _ _ _ L1 L2) (seq_refl t a Ha)). }
+  assert (N2 : lt_t t b a -> seq_t t a b -> False).
+  { intros L S. exact (o_irr _ O b a L (seq_sym _ _ _ S)). }
+  pose proof (o_irr _ O a b) as N3.
+  destruct (o_tot _ O a b Ha Hb) as [L|[S|L]].
+  - left. destruct c1; [|exfalso; apply C1 in L; discriminate].
+    destruct c2; [exfalso; apply (N1 L); apply C2; reflexivity|].
+    destruct (rt_eq a b); [exfalso; apply (N3 L); apply E; reflexivity | auto].
+  - right. left. destruct c1; [exfalso; apply (N3 (proj1 C1 eq_refl) S)|].
+    destruct c2; [exfalso; apply (N2 (proj1 C2 eq_refl) S)|].
+    destruct (rt_eq a b); [auto | apply E in S; discriminate].
+  - right. right. destruct c2; [|exfalso; apply C2 in L; discriminate].
+    destruct c1; [exfalso; apply (N1 (proj1 C1 eq_refl) L)|].
+    destruct (rt_eq a b); [exfalso; apply (N2 L); apply E; reflexivity | auto].
+Qed.
+
+(* a <= b is the negation of b < a: the four operators describe ONE order *)
+Theorem le_not_gt : forall t a b, ord_ty t = true -> vty t a -> vty t b ->
+  exists c, rt_lt b a = Ok c /\ rt_le a b = Ok (negb c).
+Proof.
+  intros t a b Ho Ha Hb.
+  destruct (lt_trichotomy_rt t a b Ho Ha Hb) as [[L [E G]]|[[L [E G]]|[L [E G]]]];
+    destruct (le_struct t Ho a b Ha Hb) as [c [R C]];
+    pose proof (le_iff t a b Ho Ha Hb) as LI; rewrite R, L, E in LI; rewrite G, R.
+  - exists false. split; [reflexivity|]. destruct c; [reflexivity|]. destruct LI as [_ X].
+    assert (Y : @Ok bool false = Ok true) by (apply X; auto). discriminate Y.
+  - exists false. split; [reflexivity|]. destruct c; [reflexivity|]. destruct LI as [_ X].
+    assert (Y : @Ok bool false = Ok true) by (apply X; auto). discriminate Y.
+  - exists true. split; [reflexivity|]. destruct c; [|reflexivity]. destruct LI as [X _].
+    destruct (X eq_refl); discriminate.
+Qed.
+
+(* ------------------------------------------------------------------------------------------------ *)
+(* arithmetic is element-wise                                                                        *)
+
+Definition qs_op (o : aop) : Q -> Q -> res Q :=
+  match o with OpAdd => qs_add | OpSub => qs_sub | OpMul => qs_mul | OpDiv => qs_div end.
+
+Lemma q_int_eta : forall q, q_is_int q = true -> q = Qnum q # 1.
+Proof. intros [n d] H. apply q_is_int_den in H. simpl in *. subst. reflexivity. Qed.
+
+Lemma q_add_spec : forall p q, q_add p q = Qred (p + q).
+Proof.
+  intros p q. unfold q_add. destruct (q_both_int p q) eqn:E; [|reflexivity].
+  apply andb_true_iff in E. destruct E as [E1 E2].
+  rewrite (q_int_eta p E1), (q_int_eta q E2). unfold Qplus, q_int. simpl.
+  rewrite !Z.mul_1_r. symmetry. apply q_wf_int.
+Qed.
+
+Lemma q_sub_spec : forall p q, q_sub p q = Qred (p - q).
+Proof.
+  intros p q. unfold q_sub. destruct (q_both_int p q) eqn:E; [|reflexivity].
+  apply andb_true_iff in E. destruct E as [E1 E2].
+  rewrite (q_int_eta p E1), (q_int_eta q E2). unfold Qminus, Qplus, Qopp, q_int. simpl.
+  rewrite !Z.mul_1_r. symmetry. apply q_wf_int.
+Qed.
+
+Lemma q_mul_spec : forall p q, q_mul p q = Qred (p * q).
+Proof.
+  intros p q. unfold q_mul. destruct (q_both_int p q) eqn:E; [|reflexivity].
+  apply andb_true_iff in E. destruct E as [E1 E2].
+  rewrite (q_int_eta p E1), (q_int_eta q E2). unfold Qmult, q_int. simpl.
+  symmetry. apply q_wf_int.
+Qed.
+
+Lemma q_is_zero_spec : forall q, q_is_zero q = true <-> q == 0.
+Proof.
+  intros [n d]. unfold q_is_zero, Qeq. simpl. rewrite Z.eqb_eq, Z.mul_1_r. reflexivity.
+Qed.
+
+Lemma num_op_spec : forall o p q, num_op o p q = qs_op o p q.
+Proof.
+  intros [] p q; simpl; unfold qs_add, qs_sub, qs_mul, qs_div.
+  - rewrite q_add_spec. reflexivity.
+  - rewrite q_sub_spec. reflexivity.
+  - rewrite q_mul_spec. reflexivity.
+  - destruct (Qeq_dec q 0) as [Z|Z].
+    + apply q_is_zero_spec in Z. rewrite Z. reflexivity.
+    + destruct (q_is_zero q) eqn:E; [apply q_is_zero_spec in E; contradiction | reflexivity].
+Qed.
+
+(* the loop of the tuple metamethods against the type-directed zip of the specification *)
+Lemma zipM_zipM3 : forall (rec : value -> value -> res value) (g : ty -> value -> value -> res value) ts,
+  Forall (fun t => forall a b, vty t a -> vty t b -> rec a b = g t a b) ts ->
+  forall xs ys, all2 vty ts xs -> all2 vty ts ys -> zipM rec xs ys = zipM3 g ts xs ys.
+Proof.
+  intros rec g ts H. induction H as [|t ts Ht _ IH]; intros [|x xs] [|y ys]; simpl; try tauto.
+  intros [Hx Hxs] [Hy Hys]. rewrite (Ht x y Hx Hy), (IH xs ys Hxs Hys). reflexivity.
+Qed.
+
+Lemma rmapM_zipM2 : forall (rec : value -> res value) (g : ty -> value -> res value) ts,
+  Forall (fun t => forall a, vty t a -> rec a = g t a) ts ->
+  forall xs, all2 vty ts xs -> rmapM rec xs = zipM2 g ts xs.
+Proof.
+  intros rec g ts H. induction H as [|t ts Ht _ IH]; intros [|x xs]; simpl; try tauto.
+  intros [Hx Hxs]. rewrite (Ht x Hx), (IH xs Hxs). reflexivity.
+Qed.
+
+Lemma num_ty_forall : forall ts, forallb num_ty ts = true -> forall t, In t ts -> num_ty t = true.
+Proof. intros ts H. apply forallb_forall. exact H. Qed.
+
+(* + - * on numbers and on (nested) tuples of numbers; / of a tuple by a tuple *)
+Theorem arith_pointwise : forall o t, num_ty t = true -> forall a b, vty t a -> vty t b ->
+  rt_arith o a b = pw2 (qs_op o) t a b.
+Proof.
+  intros o. induction t using ty_ind'; simpl; try discriminate; intros Hn a b Ha Hb.
+  - destruct Ha as [x ->], Hb as [y ->]. simpl. rewrite num_op_spec. reflexivity.
+  - destruct Ha as [x [-> _]], Hb as [y [-> _]]. simpl. rewrite num_op_spec. reflexivity.
+  - destruct a; try contradiction. destruct b; try contradiction.
+    change (rt_arith o (VTuple vs) (VTuple vs0)) with (rmap VTuple (zipM (rt_arith o) vs vs0)).
+    f_equal. apply zipM_zipM3; try assumption.
+    pose proof (num_ty_forall ts Hn) as Hn'. rewrite Forall_forall in *. auto.
+Qed.
+
+(* / of a (nested) tuple of numbers by one number *)
+Theorem div_scalar_pointwise : forall t, num_ty t = true -> forall a d, vty t a ->
+  rt_div a (VNum d) = pw_scalar qs_div t a d.
+Proof.
+  unfold rt_div. induction t using ty_ind'; simpl; try discriminate; intros Hn a d Ha.
+  - destruct Ha as [x ->].
+    change (rmap VNum (num_op OpDiv (x # 1) d) = rmap VNum (qs_div (x # 1) d)).
+    rewrite (num_op_spec OpDiv). reflexivity.
+  - destruct Ha as [x [-> _]].
+    change (rmap VNum (num_op OpDiv x d) = rmap VNum (qs_div x d)).
+    rewrite (num_op_spec OpDiv). reflexivity.
+  - destruct a; try contradiction.
+    change (rt_arith OpDiv (VTuple vs) (VNum d))
+      with (rmap VTuple (rmapM (fun x => rt_arith OpDiv x (VNum d)) vs)).
+    f_equal. apply (rmapM_zipM2 _ (fun t' x => pw_scalar qs_div t' x d)); try assumption.
+    pose proof (num_ty_forall ts Hn) as Hn'. rewrite Forall_forall in *. auto.
+Qed.
+
+(* unary minus *)
+Theorem neg_pointwise : forall t, num_ty t = true -> forall a, vty t a -> rt_neg a = pw1 qs_neg t a.
+Proof.
+  induction t using ty_ind'; simpl; try discriminate; intros Hn a Ha.
+  - destruct Ha as [x ->]. reflexivity.
+  - destruct Ha as [x [-> _]]. reflexivity.
+  - destruct a; try contradiction.
+    change (rt_neg (VTuple vs)) with (rmap VTuple (rmapM rt_neg vs)).
+    f_equal. apply (rmapM_zipM2 _ (pw1 qs_neg)); try assumption.
+    pose proof (num_ty_forall ts Hn) as Hn'. rewrite Forall_forall in *. auto.
+Qed.
+
+(* Sylt `+` (emitted as __ADD) *)
+Theorem add_str_concat : forall s u, rt_add (VStr s) (VStr u) = Ok (VStr (s ++ u)).
+Proof. reflexivity. Qed.
+
+Lemma rt_add_arith : forall t a b, num_ty t = true -> vty t a -> rt_add a b = rt_arith OpAdd a b.
+Proof.
+  intros t a b Hn Ha. destruct t; simpl in Hn; try discriminate.
+  - destruct Ha as [x ->]. reflexivity.
+  - destruct Ha as [x [-> _]]. reflexivity.
+  - destruct a; try contradiction. reflexivity.
+Qed.
+
+Theorem add_num_pointwise : forall t, num_ty t = true -> forall a b, vty t a -> vty t b ->
+  rt_add a b = pw_add t a b.
+Proof.
+  intros t Hn a b Ha Hb. rewrite (rt_add_arith t a b Hn Ha). revert Hn a b Ha Hb.
+  induction t using ty_ind'; simpl; try discriminate; intros Hn a b Ha Hb.
+  - destruct Ha as [x ->], Hb as [y ->]. simpl. rewrite q_add_spec. reflexivity.
+  - destruct Ha as [x [-> _]], Hb as [y [-> _]]. simpl. rewrite q_add_spec. reflexivity.
+  - destruct a; try contradiction. destruct b; try contradiction.
+    change (rt_arith OpAdd (VTuple vs) (VTuple vs0)) with (rmap VTuple (zipM (rt_arith OpAdd) vs vs0)).
+    f_equal. apply zipM_zipM3; try assumption.
+    pose proof (num_ty_forall ts Hn) as Hn'. rewrite Forall_forall in *. auto.
+Qed.
+
+(* The type checker's `add` also admits strings INSIDE tuples (typechecker.rs:1810-1817), but the tuple
+   metamethod adds the components with Lua's raw `+`, not with __ADD: a run-time error (or, for
+   numeric-looking strings, a number).  FULL-STRENGTH STATEMENT, FALSE: *)
+Definition add_pointwise_statement : Prop :=
+  forall t a b, add_ty t = true -> vty t a -> vty t b -> rt_add a b = pw_add t a b.
+
+Theorem add_pointwise_refuted :
+  exists t a b, add_ty t = true /\ vty t a /\ vty t b /\ rt_add a b = Err /\
+                pw_add t a b = Ok (VTuple [VStr "ab"; VNum (3 # 1)]).
+Proof.
+  exists (TTuple [TStr; TInt]), (VTuple [VStr "a"; VNum (1 # 1)]), (VTuple [VStr "b"; VNum (2 # 1)]).
+  split; [reflexivity|]. split; [simpl; eauto|]. split; [simpl; eauto|].
+  split; vm_compute; reflexivity.
+Qed.
+
+Theorem add_pointwise_false : ~ add_pointwise_statement.
+Proof.
+  intros H. destruct add_pointwise_refuted as [t [a [b [H1 [H2 [H3 [H4 H5]]]]]]].
+  specialize (H t a b H1 H2 H3). rewrite H4, H5 in H. discriminate.
+Qed.
+
+(* + - * never fail on numeric types and stay inside the type (int op int is an int) *)
+Lemma zipM_typed : forall (rec : value -> value -> res value) ts,
+  Forall (fun t => forall a b, vty t a -> vty t b -> exists r, rec a b = Ok r /\ vty t r) ts ->
+  forall xs ys, all2 vty ts xs -> all2 vty ts ys -> exists rs, zipM rec xs ys = Ok rs /\ all2 vty ts rs.
+Proof.
+  intros rec ts H. induction H as [|t ts Ht _ IH]; intros [|x xs] [|y ys]; simpl; try tauto.
+  - intros _ _. exists []. simpl. auto.
+  - intros [Hx Hxs] [Hy Hys]. destruct (Ht x y Hx Hy) as [r [-> Tr]].
+    destruct (IH xs ys Hxs Hys) as [rs [-> Trs]]. exists (r :: rs). simpl. auto.
+Qed.
+
+Theorem arith_closed : forall o, o <> OpDiv -> forall t, num_ty t = true -> forall a b, vty t a -> vty t b ->
+  exists r, rt_arith o a b = Ok r /\ vty t r.
+Proof.
+  intros o Ho. induction t using ty_ind'; simpl; try discriminate; intros Hn a b Ha Hb.
+  - destruct Ha as [x ->], Hb as [y ->]. destruct o; try congruence.
+    + exists (VNum ((x + y) # 1)). split; [reflexivity | exists (x + y)%Z; reflexivity].
+    + exists (VNum ((x - y) # 1)). split; [reflexivity | exists (x - y)%Z; reflexivity].
+    + exists (VNum ((x * y) # 1)). split; [reflexivity | exists (x * y)%Z; reflexivity].
+  - destruct Ha as [x [-> _]], Hb as [y [-> _]].
+    change (rt_arith o (VNum x) (VNum y)) with (rmap VNum (num_op o x y)). rewrite num_op_spec.
+    destruct o; try congruence; unfold qs_op, qs_add, qs_sub, qs_mul, rmap.
+    + exists (VNum (Qred (x + y))). split; [reflexivity|]. exists (Qred (x + y)). split; [reflexivity | apply q_wf_Qred].
+    + exists (VNum (Qred (x - y))). split; [reflexivity|]. exists (Qred (x - y)). split; [reflexivity | apply q_wf_Qred].
+    + exists (VNum (Qred (x * y))). split; [reflexivity|]. exists (Qred (x * y)). split; [reflexivity | apply q_wf_Qred].
+  - destruct a; try contradiction. destruct b; try contradiction.
+    change (rt_arith o (VTuple vs) (VTuple vs0)) with (rmap VTuple (zipM (rt_arith o) vs vs0)).
+    destruct (zipM_typed (rt_arith o) ts) with (xs := vs) (ys := vs0) as [rs [-> Trs]]; try assumption.
+    + pose proof (num_ty_forall ts Hn) as Hn'. rewrite Forall_forall in *. auto.
+    + exists (VTuple rs). split; [reflexivity | exact Trs].
+Qed.
